@@ -3,6 +3,22 @@
 import json, subprocess
 
 CLAIMED = {
+  "C03": ("proptest-generated confluent process systems x generated schedules/worker counts/quanta in a deterministic single-threaded simulator over the real Worker/Environment; oracle: metamorphic equality with the baseline schedule + no hang/panic/step error",
+          "Each generated program (fork/join, pipelines, request/reply, await chains, late and repeated awaits, receivers that are spawning when messages arrive, binaries crossing workers) is run under a baseline and 10 generated configurations (1-5 workers, quantum 1..1000, partial-visibility interleavings); entry result and the multiset of per-process results must be identical and no run may hang, panic or return an error from a step. Exploration only.",
+          "Trusts the simulator's transport model (FIFO per channel, arbitrary delay — what std::sync::mpsc gives); real OS threads are not exercised. Confluence is by construction of the generator. Quantum via hook H1.",
+          "DESIGN.md §4 C03"),
+  "C04": ("proptest-generated fan-in scenarios x schedules in the deterministic simulator; oracle: history invariant on the receiver's log (exactly-once, per-sender FIFO, filter phases pure) + termination (an idle system with a blocked process is a lost wake-up)",
+          "2-4 senders stream tagged, numbered messages to one receiver that takes them in arrival order, through capturing or parity filters, or in a select mixing receive and await; every run is judged on the receiver's log and must end with all results. Exploration only.",
+          "Trusts the simulator's transport model; scenarios terminate by construction, so quiescence without the entry result is judged as a lost wake-up.",
+          "DESIGN.md §4 C04"),
+  "C05": ("proptest-generated select scenarios x schedules (incl. slowed environment) in the deterministic simulator; oracle: construction-based reference model of select — readiness before the select begins is established causally (earlier await by the subject, FIFO behind a received marker), so the statement fixes the admissible sources whatever the schedule",
+          "A subject process runs 1-3 selects over await/receive/filter/timeout sources with known-ready, never-ready and racing sources; the result must come from a source at or before the first one ready before the select began, be the earliest accepted message, leave the mailbox otherwise intact and in order, respect timeout lower bounds and propagate a failing target's error unchanged. Exploration only.",
+          "Trusts the simulator's transport model. Timeouts are never assumed ready (the statement only bounds them from below). One recorded finding (a failing process's error pre-empts an earlier ready source) is excluded by construction and re-witnessed each run.",
+          "DESIGN.md §4 C05"),
+  "C06": ("proptest-generated binary-heavy process systems x schedules biased to 1-instruction slices; oracle: heap-accounting invariants after EVERY worker step (check_refcounts, freed/free-list consistency, no floating slot, bytes of live slots unchanged) + byte-content model of results",
+          "Programs that capture, pass, send, filter, await (twice) and drop heap binaries are run in the simulator; after every worker step the refcount/reachability invariant, the free-list and freed flags, the absence of slots at count 0 that are neither freed nor queued, and the stability of every still-reachable slot's bytes are checked through hook H3, and results must equal the bytes they were built from. Exploration only.",
+          "Trusts hook H3's view of the heap and Executor::reachable_heap_indices as the definition of reachability. Built with debug assertions so the runtime's own checks surface as caught panics. REPL compaction is covered by C11's use of the same invariant.",
+          "DESIGN.md §4 C06"),
   "C17": ("proptest edit scripts over harvested programs (whitespace/separator substitution, identifier lengthening across width thresholds, redundant blocks, conventional comments, string escapes); oracle: format→parse→format fixpoint, AST equality after normalize_blocks, bytecode identity, independent comment scanner",
           "Every run formats ~3*10^4 parseable sources derived from the 1189 harvested programs and checks that the output parses, is a fixpoint, denotes the same program (normalised AST; identical bytecode when it compiles) and keeps the comment sequence. Exploration only. Nine recorded formatter findings are excluded by construction or attributed by an explicit rule (see known_findings.json and DESIGN.md §5).",
           "Trusts the independent comment scanner (follows the parser's comment definition) and simplify::normalize_blocks as the definition of 'no-op block'. Trivia placed unconventionally is judged only differentially (a failing case is tolerated iff it passes without those trivia edits).",
